@@ -5,6 +5,7 @@ import (
 	"encoding/json"
 	"fmt"
 	"math"
+	"regexp"
 	"strings"
 	"time"
 
@@ -85,7 +86,7 @@ func c05Scalars() []c05Val {
 		{"float64(0.5)", 0.5}, {"float64(1e10)", 1e10}, {"float64(1e40)", 1e40}, {"float64(NaN)", math.NaN()}, {"float64(+Inf)", math.Inf(1)}, {"float64(-Inf)", math.Inf(-1)}, {"float64(3)", 3.0}, {"float64(2^31)", 2147483648.0},
 		{"string()", ""}, {"string(12)", "12"}, {"string(1.5)", "1.5"}, {"string(abc)", "abc"}, {"string(true)", "true"}, {"string(RED)", "RED"}, {"string(PURPLE)", "PURPLE"},
 		{"string(NaN)", "NaN"}, {"string(Inf)", "Inf"}, {"string(-Infinity)", "-Infinity"}, {"string(1e39)", "1e39"}, {"string(1e400)", "1e400"}, {"string(99999999999)", "99999999999"},
-		{"string(rfc3339)", "2020-04-05T06:07:08Z"}, {"string(invalid-utf8)", "a\xffb"}, {"string(quote)", "q\"\\\n"},
+		{"string(rfc3339)", "2020-04-05T06:07:08Z"}, {"string(time,comma)", "2021-03-04T05:06:07,125Z"}, {"string(time,short-hour)", "2021-03-04T5:06:07Z"}, {"string(time,offset+24)", "2021-03-04T05:06:07+24:00"}, {"string(time,offset)", "2021-03-04T05:06:07.5+01:00"}, {"string(invalid-utf8)", "a\xffb"}, {"string(quote)", "q\"\\\n"},
 		{"bool(true)", true}, {"bool(false)", false},
 		{"(*int)(nil)", nilp}, {"*int(1)", &one}, {"struct", c05Struct{1}}, {"*struct", &c05Struct{2}}, {"map", map[string]interface{}{"a": 1}},
 		{"Symbol(RED)", ggql.Symbol("RED")}, {"Symbol(PURPLE)", ggql.Symbol("PURPLE")}, {"time.Time", tm}, {"[]byte", []byte("ab")},
@@ -131,34 +132,47 @@ func c05Lists(depth int) []c05Val {
 type c05RSNode struct {
 	v     interface{}
 	depth int
+	e     bool // leaf fields answer their value AND an error
 }
 
 func (n *c05RSNode) Resolve(field *ggql.Field, args map[string]interface{}) (interface{}, error) {
 	switch field.Name {
 	case "query":
-		return &c05RSNode{n.v, 0}, nil
+		return &c05RSNode{n.v, 0, n.e}, nil
 	case "o":
-		return &c05RSNode{n.v, 1}, nil
+		return &c05RSNode{n.v, 1, n.e}, nil
 	case "os":
-		return []interface{}{&c05RSNode{n.v, 1}, &c05RSNode{n.v, 1}}, nil
+		return []interface{}{&c05RSNode{n.v, 1, n.e}, &c05RSNode{n.v, 1, n.e}}, nil
+	}
+	if n.e {
+		return n.v, fmt.Errorf("the resolver of %s gives a value and an error", field.Name)
 	}
 	return n.v, nil
 }
 
-type c05AnyNode struct{ v interface{} }
-type c05AnyRoot struct{ v interface{} }
+type c05AnyNode struct {
+	v interface{}
+	e bool
+}
+type c05AnyRoot struct {
+	v interface{}
+	e bool
+}
 type c05Any struct{}
 
 func (a *c05Any) Resolve(obj interface{}, field *ggql.Field, args map[string]interface{}) (interface{}, error) {
 	switch to := obj.(type) {
 	case *c05AnyRoot:
-		return &c05AnyNode{to.v}, nil
+		return &c05AnyNode{to.v, to.e}, nil
 	case *c05AnyNode:
 		switch field.Name {
 		case "o":
-			return &c05AnyNode{to.v}, nil
+			return &c05AnyNode{to.v, to.e}, nil
 		case "os":
-			return []interface{}{&c05AnyNode{to.v}, &c05AnyNode{to.v}}, nil
+			return []interface{}{&c05AnyNode{to.v, to.e}, &c05AnyNode{to.v, to.e}}, nil
+		}
+		if to.e {
+			return to.v, fmt.Errorf("the resolver of %s gives a value and an error", field.Name)
 		}
 		return to.v, nil
 	}
@@ -175,12 +189,17 @@ type C05Obj struct {
 type C05Root struct{ Query *C05Obj }
 
 func c05Root(strat world.Strategy, sdl string, v interface{}) *ggql.Root {
+	return c05RootE(strat, sdl, v, false)
+}
+
+// c05RootE: with withErr the leaf resolvers (Resolver and AnyResolver back ends) return their value together with an error.
+func c05RootE(strat world.Strategy, sdl string, v interface{}, withErr bool) *ggql.Root {
 	var root *ggql.Root
 	switch strat {
 	case world.RS:
-		root = ggql.NewRoot(&c05RSNode{v, 0})
+		root = ggql.NewRoot(&c05RSNode{v, 0, withErr})
 	case world.AS:
-		root = ggql.NewRoot(&c05AnyRoot{v})
+		root = ggql.NewRoot(&c05AnyRoot{v, withErr})
 		root.AnyResolver = &c05Any{}
 	case world.FS:
 		leaf := &C05Obj{V: v}
@@ -282,9 +301,15 @@ func shapeOK(t *world.T, d interface{}) string {
 		if _, err := time.Parse(time.RFC3339Nano, s); err != nil {
 			return "Time leaf does not parse as RFC 3339: " + s
 		}
+		// Go's parser is more lenient than RFC 3339 (a decimal comma, a one-digit hour, offsets beyond 23:59): the grammar itself
+		if !c05RFC3339.MatchString(s) {
+			return "Time leaf is not in the RFC 3339 grammar: " + s
+		}
 	}
 	return ""
 }
+
+var c05RFC3339 = regexp.MustCompile(`^\d{4}-\d{2}-\d{2}[Tt]([01]\d|2[0-3]):[0-5]\d:([0-5]\d|60)(\.\d+)?([Zz]|[+-]([01]\d|2[0-3]):[0-5]\d)$`)
 
 // unrepresentable: the Go value clearly cannot be represented in the named leaf type.
 func unrepresentable(leaf string, v interface{}) bool {
@@ -541,6 +566,28 @@ func runC05(c *core.Ctx) {
 						}
 					}
 					c05One(c, root, c05Wrap(leaf, w), leaf, w, "{ "+field+" }", []interface{}{field}, val, "root, field of a later load", st)
+				}
+			}
+		}
+	}
+	// ---- the resolver hands back its value TOGETHER with an error (Resolver and AnyResolver back ends): what the data holds at
+	// that position is then not stated beyond this property - a value of the declared type, or null
+	for li, leaf := range c05Leaves {
+		for _, w := range []int{0, 2} {
+			vals := c05Scalars()
+			if w == 2 {
+				vals = c05Lists(1)
+			}
+			for _, val := range vals {
+				for _, st := range []world.Strategy{world.RS, world.AS} {
+					idx++
+					if !c.OwnsIdx(idx) {
+						continue
+					}
+					c.Nontrivial()
+					c.Eval()
+					field := fmt.Sprintf("r%d_%d", li, w)
+					c05One(c, c05RootE(st, sdl, val.V, true), c05Wrap(leaf, w), leaf, w, "{ o { "+field+" } }", []interface{}{"o", field}, val, "nested, beside an error of the same resolver", st)
 				}
 			}
 		}
